@@ -124,6 +124,10 @@ class Method(Variable):  # i.e. TypeBound procedure
                 self.link_obj = link_obj
                 if self.pass_name is not None:
                     self.pass_name = self.pass_name.lower()
+                    # Forget the position found in a previous version of the target
+                    self.drop_arg = (
+                        0 if self.parent.get_type() == CLASS_TYPE_ID else -1
+                    )
                     # Only procedures have arguments (the target may be anything
                     # while the code is being typed)
                     args_snip = getattr(link_obj, "args_snip", None) or ""
